@@ -32,6 +32,8 @@ pub struct Partial {
     /// non-trivial cases that are distinct by construction (exhaustive enumeration)
     pub nontrivial_enumerated: u64,
     pub samples: Vec<Value>,
+    /// the first case of the run, used when no (small) non-trivial case was sampled
+    pub fallback_sample: Option<Value>,
     pub classes: Counters,
     pub per_unit: BTreeMap<String, u64>,
     pub exhaustive: Vec<Value>,
@@ -51,6 +53,9 @@ impl Partial {
             } else if self.samples.len() < 12 {
                 self.samples.push(s);
             }
+        }
+        if self.fallback_sample.is_none() {
+            self.fallback_sample = o.fallback_sample;
         }
         self.classes.merge(&o.classes);
         for (k, v) in o.per_unit {
